@@ -1,9 +1,9 @@
 SPECIFICATION Spec
 CONSTANTS
-  NSym = 4
-  MinLen = 1
-  MaxLen = 6
-  Mode = "prefix"
-  Stems = "all"
+  NSym = 3
+  MinLen = 5
+  MaxLen = 5
+  Mode = "edit"
+  Stems = "corners"
 INVARIANTS Found SharesGram ScoreSafe
 CHECK_DEADLOCK FALSE
